@@ -17,6 +17,10 @@ Streams:
               dictionary and list → JSON, HTTP响应 object with status / headers / content, error → 500, 空, other objects), the
               playground handler (result text, VarInput dictionaries, refusals); beside "one outcome" the ORDER is prescribed:
               JSON documents in document order, dictionaries in insertion order, values of one response header in insertion order
+  big-*       (props/bigcoll.py) dictionaries of 30…300 keys written in a loop, most of them removed (first / last / three of four /
+              random three quarters / all but a few / as a queue), grown again, copied before / after, nested; lists of 30…300 items
+              shrunk by 左移 / 右移; observed by 显示, 所有索引, 所有值, 遍历, 生成JSON, the first differing member of a comparison:
+              Go = model = spec semantics (insertion order) = the generator's ground truth, and N repetitions give that ONE outcome
   ext:*       (props/extdata.py) external data that repeats names — JSON objects with a key two or three times at any depth
               (解析JSON in programs, the application/json request body, the library called directly), header lines / query
               parameters repeated or differing in letter case or spelling, form bodies — observed by 显示, 所有索引, 所有值, 遍历,
@@ -34,7 +38,8 @@ RULE = ("every program is executed N=50 (quick) / 1000 (thorough) times inside o
         "classified map-range site: dictionary literals with 3–7 keys compared (为/不为/==//=) with a copy in another key order, with "
         "one value changed at each position, one key renamed, one key more/less, nested dictionaries and lists, lists of "
         "dictionaries with 包含/寻找, non-comparable values under a key (error 83 inside the loop); dictionaries displayed, "
-        "所有索引/所有值/遍历 after 写入/移除; classes with 4–9 properties and 5–10 methods instantiated with and without "
+        "所有索引/所有值/遍历 after 写入/移除; big dictionaries (30–300 keys written in a loop, three quarters or more removed, grown again, "
+        "copied, nested) and big lists shrunk by 左移/右移, observed in insertion order; classes with 4–9 properties and 5–10 methods instantiated with and without "
         "constructor arguments, every property displayed, list properties mutated on one instance; import-all of @JSON/@文件 "
         "(once, twice = clash), of custom modules with 4–8 exports, of two modules sharing ≥ 2 names, selective imports; "
         "解析JSON of objects with 4–8 keys then 所有索引 (owned by C19); HTTP requests with 5–9 headers and 5–8 query parameters "
@@ -835,6 +840,10 @@ def run(ctx):
                 ctx.violation('rep:%s:differs-from-run' % name, line, a[:1500], g1[:1500])
         ctx.streams.append({'stream': 'rep:' + name, 'cases': len(lines), 'repetitions': N})
         ctx.sample({'stream': 'rep:' + name, 'source': srcs[0], 'answer': ans[0][:400]})
+
+    # ---- BIG dictionaries / lists that grow and then shrink (props/bigcoll.py): three-way + ground truth + repetition ----
+    from props import bigcoll
+    bigcoll.run_c11(ctx, N, scale, par_go)
 
     xeqtree_stream(ctx, ctx.n(600, 20000))
 
